@@ -958,7 +958,7 @@ class UniformGrid(_HyperRectangleGrid):
             coord = np.floor(coord)
         elif which == "closest":
             # Round to nearest integer.
-            coord = np.rint(coord)
+            coord = np.clip(np.rint(coord), 0, np.asarray(self.shape) - 1)
         else:
             raise ValueError("`which` parameter was not the standard options.")
 
